@@ -15,7 +15,8 @@ EPS == RMake(BOfInt(1), BOfInt(10000))    \* ZERO_AMOUNT_THRESHOLD 0.0001 (state
 RInt(n) == ROfInt(n)
 R(bits) == RFx(bits)
 
-EnvOps == {"tick", "set_clock", "add_mint", "fund", "fund_vault", "set_oracle", "inject_bank", "copy_account", "reset"}
+EnvOps == {"tick", "set_clock", "add_mint", "fund", "fund_vault", "set_oracle", "inject_bank", "copy_account", "reset",
+           "add_solend_reserve", "set_solend_reserve"}
 IsProgramEvent(e) == e.ev \notin EnvOps
 
 \* ---- reference quantities ------------------------------------------------------------------
@@ -177,8 +178,8 @@ C03(pre, e, post, line) ==
 \* (share value 1, no interest).  A deposit through the venue credits no more collateral than the venue minted to
 \* the obligation and takes exactly the stated tokens from the user; a withdrawal removes at least the collateral the
 \* obligation lost and hands the user no more than the venue released; positions never exceed the obligation.
-VenueOps == {"kamino_deposit", "kamino_withdraw", "drift_deposit", "drift_withdraw"}
-VenueDeposits == {"kamino_deposit", "drift_deposit"}
+VenueOps == {"kamino_deposit", "kamino_withdraw", "drift_deposit", "drift_withdraw", "solend_deposit", "solend_withdraw"}
+VenueDeposits == {"kamino_deposit", "drift_deposit", "solend_deposit"}
 \* the venue-side vault of the bank's reserve / market
 VenueVault(s, q) ==
   IF Has(s, "reserves") /\ Has(s.reserves, q.integ[1]) THEN s.reserves[q.integ[1]].vault
